@@ -33,12 +33,15 @@
   failed_prepare_keeps_cache_sound
   inline_real_seq_eq_runtime_partial
   seq_same_termination
+  runtime_eq_spec_zones_partial
+  inline_eq_spec_zones_partial
 -/
 import Genshi.Lemmas.InclErase
 import Genshi.Lemmas.InclSpec
 import Genshi.Lemmas.InclGuard
 import Genshi.Lemmas.InclIllSim
 import Genshi.Lemmas.InclSeq
+import Genshi.Lemmas.InclSpecZ
 import Genshi.Gen.Incl
 namespace Genshi.Props.C11
 open Genshi.Incl
@@ -395,6 +398,45 @@ theorem inline_eq_spec_partial (T : List Name) (files : Files) (hH : inH T files
     (entry : Name) (kind : Kind) (data : List (Name × Value)) (fuel : Nat) :
     renderInline files entry kind data fuel = renderSpec files entry kind data fuel := by
   rw [inline_eq_runtime_partial T files hH, runtime_eq_spec_partial files hF]
+
+/-
+  Full statement (false, `spec_restart_witness`): renderRuntime = renderSpec for every file set.
+  Proved for file sets WITH match templates under `inHS T files`: every match template is written for a tag in
+  `T`; inside an element with a tag in `T` and inside a match template body (a zone) no macro call, and an
+  include only of content that does not depend on the window of match templates — statically named: the target
+  (or the fallback of a missing one) has no element with a tag in `T`, no macro call, no `select`, and includes
+  only text templates (`winfreeSL`); expression-valued: a text template, with such a fallback —; text templates
+  are textual.  No demand on well-formedness or on the class named by an include (both evaluators load the same
+  raw file).  Missing for the full statement: exactly these clauses (the run-time include restarts the match
+  filter, the replacement in place does not).
+-/
+/-- **an include stands for its target, with match templates around**: the layout pattern (a match template
+wrapping `select()` around an element whose content includes leaf fragments and text templates), macros and
+match templates defined inside included files, includes — also expression-valued ones — anywhere outside zones -/
+theorem runtime_eq_spec_zones_partial (T : List Name) (files : Files) (hS : inHS T files = true)
+    (entry : Name) (kind : Kind) (data : List (Name × Value)) (fuel : Nat) :
+    renderRuntime files entry kind data fuel = renderSpec files entry kind data fuel := by
+  simp only [renderRuntime, renderSpec, loadT]
+  cases hraw : loadRaw files entry kind with
+  | fuel => rfl
+  | err e => rfl
+  | ok body =>
+    simp only [Res.map_ok, Res.bind_ok]
+    have hok := find_fileOkS hS (loadRaw_ok_find hraw)
+    simp only [fileOkS, Bool.and_eq_true] at hok
+    have h0 : OkStZ T files (St.init data) := ⟨by intro p hp; simp [St.init] at hp, by intro p hp; simp [St.init] at hp⟩
+    have hc : CoupS false (.ofKind kind) (.ofKind kind) (winfreeSL T body) := by
+      cases kind with
+      | markup => exact CoupS.full
+      | text => exact .inr (winfreeSL_of_textual T body hok.2)
+    have := zspecL hS (zspec hS fuel) body false (.ofKind kind) (.ofKind kind) (St.init data) hok.1.1 hok.1.2 hc h0
+    rw [this.1]
+
+/-- … and so does the inline mode, inside both hypotheses -/
+theorem inline_eq_spec_zones_partial (T : List Name) (files : Files) (hH : inH T files = true) (hS : inHS T files = true)
+    (entry : Name) (kind : Kind) (data : List (Name × Value)) (fuel : Nat) :
+    renderInline files entry kind data fuel = renderSpec files entry kind data fuel := by
+  rw [inline_eq_runtime_partial T files hH, runtime_eq_spec_zones_partial T files hS]
 
 /-- recursive and mutually recursive includes terminate under the same conditions in both modes:
 one mode runs out of any amount of fuel iff the other does, and one mode reaches a result with
@@ -949,6 +991,14 @@ def exLayout : Files :=
     (nLeaf, ⟨.markup, some [.elem ['p'] [.text ['L'], .var ['s', '0']]]⟩),
     (nT, ⟨.text, some [.text ['T']]⟩)]]
 
+/-- non-vacuity of `runtime_eq_spec_zones_partial`: file sets with match templates inside `inHS` — the layout
+pattern, and the set that exercises every construct (a match template and a macro crossing a file boundary, an
+expression-valued include outside zones); the witness set of `spec_restart_witness` is outside -/
+example : inHS (matchTags exLayout) exLayout = true ∧ inHS (matchTags exFiles) exFiles = true ∧
+    inHS (matchTags exRestart) exRestart = false ∧ noMtFiles exLayout = false ∧ noMtFiles exFiles = false := by decide +kernel
+example : renderSpec exLayout nA .markup exData 4 = renderRuntime exLayout nA .markup exData 4 ∧
+    renderSpec exFiles nA .markup exData 9 = renderRuntime exFiles nA .markup exData 9 ∧
+    (match renderSpec exFiles nA .markup exData 9 with | .ok evs => evs.length | _ => 0) = 20 := by decide +kernel
 example : inH (matchTags exLayout) exLayout = true := by decide +kernel
 example : renderInlineReal exLayout nA .markup exData 4 = renderRuntime exLayout nA .markup exData 4 ∧
     renderRuntime exLayout nA .markup exData 4 =
